@@ -372,6 +372,8 @@ def inline_helpers(func, helpers, counter):
                 call, mode = st.value, 'assign'
             elif isinstance(st, ast.Return) and isinstance(st.value, ast.Call):
                 call, mode = st.value, 'return'
+            elif isinstance(st, ast.AugAssign) and isinstance(st.value, ast.Call) and isinstance(st.target, ast.Name):
+                call, mode = st.value, 'aug'
             elif isinstance(st, ast.Expr) and isinstance(st.value, ast.Yield) and isinstance(st.value.value, ast.Call):
                 call, mode = st.value.value, 'yield'
             name = None
@@ -430,6 +432,8 @@ def inline_helpers(func, helpers, counter):
                     new.append(ast.Expr(value=ret))
             elif mode == 'assign':
                 new.append(ast.Assign(targets=st.targets, value=ret if ret is not None else ast.Constant(value=None)))
+            elif mode == 'aug':
+                new.append(ast.AugAssign(target=st.target, op=st.op, value=ret if ret is not None else ast.Constant(value=None)))
             elif mode == 'return':
                 new.append(ast.Return(value=ret))
             elif mode == 'yield':
@@ -492,6 +496,11 @@ class _ExprRewrite(ast.NodeTransformer):
         # an empty format spec is no format spec
         if isinstance(node.format_spec, ast.Constant) and node.format_spec.value == '':
             node.format_spec = None
+        # the 's' presentation of something that already is a string is that string
+        if isinstance(node.format_spec, ast.Constant) and node.format_spec.value == 's' and node.conversion == -1 and \
+                (isinstance(node.value, ast.Call) and isinstance(node.value.func, ast.Name) and node.value.func.id in ('str', 'repr') or
+                 isinstance(node.value, ast.Constant) and isinstance(node.value.value, str)):
+            node.format_spec = None
         # a literal formatted with a literal specification is a literal
         if isinstance(node.value, ast.Constant) and isinstance(node.value.value, (str, int, float)) and not isinstance(node.value.value, bool) \
                 and node.conversion == -1 and (node.format_spec is None or isinstance(node.format_spec, ast.Constant)):
@@ -516,6 +525,13 @@ class _ExprRewrite(ast.NodeTransformer):
         if all(isinstance(v, ast.Constant) for v in vals):
             return ast.Constant(value=''.join(v.value for v in vals))
         node.values = vals
+        return node
+
+    def visit_ListComp(self, node):
+        self.generic_visit(node)
+        g = node.generators
+        if len(g) == 1 and not g[0].ifs and not g[0].is_async and isinstance(g[0].target, ast.Name) and isinstance(node.elt, ast.Name) and node.elt.id == g[0].target.id:
+            return ast.Call(func=ast.Name(id='list', ctx=ast.Load()), args=[g[0].iter], keywords=[])
         return node
 
     def visit_While(self, node):
@@ -733,7 +749,7 @@ def assignments_to_ifexp(func):
             # unpacking a side-effect-free value into names: a, b = E  ->  a = E[0]; b = E[1]
             if isinstance(st, ast.Assign) and len(st.targets) == 1 and isinstance(st.targets[0], ast.Tuple) and not isinstance(st.value, ast.Tuple) \
                     and all(isinstance(t, ast.Name) for t in st.targets[0].elts) and is_pure(st.value) and not _allocates(st.value) \
-                    and not isinstance(st.value, (ast.Call,)) or (isinstance(st, ast.Assign) and len(st.targets) == 1 and isinstance(st.targets[0], ast.Tuple)
+                    or (isinstance(st, ast.Assign) and len(st.targets) == 1 and isinstance(st.targets[0], ast.Tuple)
                                                                and all(isinstance(t, ast.Name) for t in st.targets[0].elts) and isinstance(st.value, ast.Subscript) and is_pure(st.value)):
                 tn = {t.id for t in st.targets[0].elts}
                 if not any(isinstance(n, ast.Name) and n.id in tn for n in ast.walk(st.value)):
@@ -772,6 +788,36 @@ def assignments_to_ifexp(func):
                         i -= 1
                         continue
             i += 1
+    return changed
+
+
+def enumerate_to_index(func):
+    """`for i, e in enumerate(X): ... e ...` with X a stable, side-effect-free expression becomes
+    `for i in range(len(X)): ... X[i] ...` (the form the index loops of this code base use)"""
+    changed = False
+    for owner, block in _all_blocks(func):
+        for st in block:
+            if not (isinstance(st, ast.For) and not st.orelse and isinstance(st.target, ast.Tuple) and len(st.target.elts) == 2
+                    and all(isinstance(t, ast.Name) for t in st.target.elts) and isinstance(st.iter, ast.Call) and isinstance(st.iter.func, ast.Name)
+                    and st.iter.func.id == 'enumerate' and len(st.iter.args) == 1 and not st.iter.keywords):
+                continue
+            X = st.iter.args[0]
+            i, e = st.target.elts[0].id, st.target.elts[1].id
+            if not is_pure(X) or _allocates(X) or isinstance(X, ast.Call):
+                continue
+            reads = read_chains(X)
+            if any(interferes(s_, reads) for s_ in st.body):
+                continue
+            stores = [n for s_ in st.body for n in ast.walk(s_) if isinstance(n, ast.Name) and n.id in (i, e) and isinstance(n.ctx, (ast.Store, ast.Del))]
+            outside = [n for n in ast.walk(func) if isinstance(n, ast.Name) and n.id == e and not any(n is y for y in ast.walk(st))]
+            if stores or outside or _has_nested_scope_use(func, e):
+                continue
+            sub = _Subst({e: ast.Subscript(value=copy.deepcopy(X), slice=ast.Name(id=i, ctx=ast.Load()), ctx=ast.Load())})
+            st.body = [sub.visit(s_) for s_ in st.body]
+            st.target = ast.Name(id=i, ctx=ast.Store())
+            st.iter = ast.Call(func=ast.Name(id='range', ctx=ast.Load()), args=[ast.Call(func=ast.Name(id='len', ctx=ast.Load()), args=[X], keywords=[])], keywords=[])
+            ast.fix_missing_locations(st)
+            changed = True
     return changed
 
 
@@ -1574,6 +1620,12 @@ def seq(stmts, k, budget):
         return seq(stmts[1:], k, budget)
     if isinstance(st, TERMINATORS):
         return (_cstmt(st, budget),)
+    if isinstance(st, ast.Try) and not st.finalbody:
+        # what follows a try statement follows its else-part on success and each handler that falls through; written that
+        # way `else:` clauses and statements placed after the try look the same
+        rest = seq(stmts[1:], k, budget)
+        hs = tuple((cx(h.type), h.name or '', seq(h.body, rest, budget)) for h in st.handlers)
+        return (('try', seq(st.body, (), budget), hs, seq(st.orelse, rest, budget)),)
     if isinstance(st, ast.If):
         # the statements after an `if` are the tail of both of its branches (a branch that always leaves drops its tail):
         # the result does not depend on whether the source wrote else-branches, guard clauses or nested ifs
@@ -1796,7 +1848,8 @@ def canonical(func, helpers=None, consts=None, sized=None, cls_name=None, props=
             h = loops_to_comprehensions(f)
             k = assignments_to_ifexp(f)
             m = return_of_assignment(f)
-            if not (a or b or c or d or e or g or h or k or m):
+            n_ = enumerate_to_index(f)
+            if not (a or b or c or d or e or g or h or k or m or n_):
                 break
         sink_constant_inits(f)
         params = _params(f)
